@@ -43,6 +43,8 @@ type CallSpec struct {
 	// SharedHeader: the request uses the header map this world's caller keeps per host and reuses for
 	// every such call (a RoundTripper must not modify the request, so that is harmless). Sequential calls only.
 	SharedHeader bool `json:"shared_header,omitempty"`
+	// PreCancelled: the request's context is already cancelled when RoundTrip is entered.
+	PreCancelled bool `json:"pre_cancelled,omitempty"`
 }
 
 // TrackBody is a request body that counts Close calls.
@@ -123,6 +125,11 @@ func (w *World) Do(tr http.RoundTripper, spec CallSpec) *CallResult {
 			ds = ociauth.ParseScope(spec.DesiredText)
 		}
 		ctx = ociauth.ContextWithScope(ctx, ds)
+	}
+	if spec.PreCancelled {
+		var cancel context.CancelFunc
+		ctx, cancel = context.WithCancel(ctx)
+		cancel()
 	}
 	method := spec.Method
 	if method == "" {
